@@ -6,16 +6,22 @@
    the property.  Used by TraceSleepProp (one recorded schedule after the
    other) and GraphSleepProp (every path of the explored real-code graph). *)
 EXTENDS Integers, Sequences, FiniteSets
-VARIABLES a, att, pend, cons, parkedv, doneRet
-mvars == <<a, att, pend, cons, parkedv, doneRet>>
+CONSTANT TolerateF25   \* known finding F25 (see NothingComplete / StrictNothing below)
+VARIABLES a, att, pend, cons, comp, parkedv, doneRet
+mvars == <<a, att, pend, cons, comp, parkedv, doneRet>>
 P == 0..8
 WK == 1..8
-None == [op |-> "none", w |-> 0, block |-> FALSE, wit |-> FALSE]
+None == [op |-> "none", w |-> 0, block |-> FALSE, wit |-> FALSE, swit |-> FALSE]
 MHas(r, f) == f \in DOMAIN r
 MSeqToSet(s) == {s[i] : i \in DOMAIN s}
 
 AssertInFlight(pd, w) == \E q \in P : pd[q].op = "Assert" /\ pd[q].w = w
-\* no attached waker has a completed, unconsumed assertion
+\* C19 literally (STRICT): no attached waker has a completed, unconsumed assertion, where comp = wakers for
+\* which an Assert call has returned while the waker was asserted and nothing has consumed it since
+StrictNothing(av, at, cp) == \A w \in at : ~(w \in av /\ w \in cp)
+\* the clause everything is judged by once known finding F25 is tolerated: the strict clause may fail only in
+\* the shape of F25 -- every asserted attached waker still has an Assert call in flight at that moment (the
+\* Assert that returned found the waker already asserted by one that has not queued it yet)
 NothingComplete(av, at, pd) == \A w \in at : (w \in av) => AssertInFlight(pd, w)
 \* calls in progress that can still report a consumption of w
 Cand(at, pd, w) == Cardinality({p \in P : pd[p].op = "Clear" /\ pd[p].w = w})
@@ -25,6 +31,7 @@ Wit(c, av, at, pd) == CASE c.op = "Assert" -> c.w \in av
                         [] c.op = "Clear"  -> c.w \notin av
                         [] c.op = "Fetch"  -> ~c.block /\ NothingComplete(av, at, pd)
                         [] OTHER -> FALSE
+SWit(c, av, at, cp) == c.op = "Fetch" /\ ~c.block /\ StrictNothing(av, at, cp)
 Quiet(pd) == \A p \in P \ {0} : pd[p] = None
 \* holds after every event
 OK(av, at, pd, cn, pk) ==
@@ -34,29 +41,32 @@ OK(av, at, pd, cn, pk) ==
 Post == OK(a', att', pend', cons', parkedv')
 
 \* fresh sleeper and wakers; pre: wakers 1..nw already attached
-MStart(nw, pre) == /\ a = {} /\ pend = [p \in P |-> None] /\ cons = [w \in WK |-> 0] /\ parkedv = FALSE /\ doneRet = FALSE
+MStart(nw, pre) == /\ a = {} /\ pend = [p \in P |-> None] /\ cons = [w \in WK |-> 0] /\ comp = {} /\ parkedv = FALSE /\ doneRet = FALSE
                    /\ att = IF pre THEN 1..nw ELSE {}
-MReset(ev) == /\ a' = {} /\ pend' = [p \in P |-> None] /\ cons' = [w \in WK |-> 0] /\ parkedv' = FALSE /\ doneRet' = FALSE
+MReset(ev) == /\ a' = {} /\ pend' = [p \in P |-> None] /\ cons' = [w \in WK |-> 0] /\ comp' = {} /\ parkedv' = FALSE /\ doneRet' = FALSE
               /\ att' = IF ev.pre THEN 1..ev.nw ELSE {}
 
 MCall(ev) == /\ LET p == ev.p  op == ev.op
                     c == [op |-> op, w |-> IF MHas(ev, "w") THEN ev.w ELSE 0,
-                          block |-> IF MHas(ev, "block") THEN ev.block ELSE (op = "Done"), wit |-> FALSE] IN
+                          block |-> IF MHas(ev, "block") THEN ev.block ELSE (op = "Done"), wit |-> FALSE, swit |-> FALSE] IN
                 /\ pend[p] = None
                 /\ (p = 0) <=> (op \in {"AddWaker", "Fetch", "Done"})
                 /\ (p # 0) => (op \in {"Assert", "Clear"})
                 /\ (p = 0) => ~doneRet
                 /\ (op = "AddWaker") => c.w \notin att
-                /\ pend' = [pend EXCEPT ![p] = [c EXCEPT !.wit = Wit(c, a, att, pend)]]   \* the moment of the call counts
-             /\ UNCHANGED <<a, att, cons, parkedv, doneRet>>
+                /\ pend' = [pend EXCEPT ![p] = [c EXCEPT !.wit = Wit(c, a, att, pend),       \* the moment of the call counts
+                                                          !.swit = SWit(c, a, att, comp)]]
+             /\ UNCHANGED <<a, att, cons, comp, parkedv, doneRet>>
              /\ Post
 
 MObs(ev) == /\ LET av == MSeqToSet(ev.asserted) IN
                /\ \A w \in av \ a : AssertInFlight(pend, w)                             \* asserted only by an Assert in progress
                /\ cons' = [w \in WK |-> IF w \in a \ av THEN cons[w] + 1 ELSE cons[w]]  \* consumed: to be reported
                /\ a' = av
+               /\ comp' = comp \ (a \ av)                                                 \* consumed: no longer complete
                /\ pend' = [p \in P |-> IF pend[p] = None THEN None
-                                       ELSE [pend[p] EXCEPT !.wit = @ \/ Wit(pend[p], av, att, pend)]]
+                                       ELSE [pend[p] EXCEPT !.wit = @ \/ Wit(pend[p], av, att, pend),
+                                                            !.swit = @ \/ SWit(pend[p], av, att, comp \ (a \ av))]]
             /\ parkedv' = ev.parked
             /\ doneRet => ~ev.dirty                                                     \* nobody touches it after Done
             /\ UNCHANGED <<att, doneRet>>
@@ -69,11 +79,14 @@ MRet(ev) == /\ LET p == ev.p  c == pend[ev.p] IN
                                           ELSE c.wit /\ UNCHANGED cons
                     [] c.op = "Fetch"  -> IF ev.ok THEN /\ ev.id \in att /\ cons[ev.id] > 0
                                                         /\ cons' = [cons EXCEPT ![ev.id] = @ - 1]
-                                          ELSE ~c.block /\ c.wit /\ UNCHANGED cons
+                                          ELSE /\ ~c.block /\ UNCHANGED cons
+                                               /\ c.wit                                  \* never outside the shape of F25
+                                               /\ (c.swit \/ TolerateF25)                 \* the literal clause
                     [] OTHER -> UNCHANGED cons
                /\ pend' = [pend EXCEPT ![p] = None]
                /\ att' = CASE c.op = "AddWaker" -> att \cup {c.w} [] c.op = "Done" -> {} [] OTHER -> att
                /\ doneRet' = (doneRet \/ c.op = "Done")
+               /\ comp' = IF c.op = "Assert" /\ c.w \in a THEN comp \cup {c.w} ELSE comp   \* a completed assertion
             /\ UNCHANGED <<a, parkedv>>
             /\ Post
 
